@@ -89,6 +89,7 @@ class Prop(object):
                 for secret in (False, True):
                     u.append(('shapes', {'nuid': nuid, 'nsub': nsub, 'secret': secret, 'reduced': tier == 'quick'}))
         u.append(('concat', {}))
+        u.append(('gpg', {}))
         d = 2 if tier == 'quick' else 3
         for op in H.OPS:
             u.append(('bfs', {'root': 'ed25519a', 'first': op, 'depth': d if tier == 'quick' else d + 1}))
@@ -225,6 +226,50 @@ class Prop(object):
         r.dim('nuid', case['nuid'])
         r.dim('nsub', case['nsub'])
         r.samples.append({'shape': {k: v for k, v in shape.items() if v}})
+        return r
+
+    def c_gpg(self, case):
+        """Keys exported by GnuPG 2.2.40 (several user ids incl. a revoked one, local and exportable third-party certifications, expiry,
+        signing / encryption / ElGamal subkeys, protected secret keys) survive import -> export -> import."""
+        import pgpy
+        from mc import gpgfix as G
+        r = Res()
+        if not G.available():
+            r.states = r.transitions = 1
+            r.outcomes['gpg-vectors-absent'] += 1
+            return r
+        known = G.all_raw()
+        for f in G.files('key.*.gpg') + G.files('key.*.asc'):
+            if case.get('only') and f != case['only']:
+                continue
+            r.states += 1
+            probs = []
+            try:
+                blob = G.binary(f)
+                v = H.key_view(blob)
+                key = pgpy.PGPKey.from_blob(G.read(f))[0]
+                first = bytes(key)
+                fv = H.key_view(first)
+                if comp_view(fv, False) != comp_view(v, True):
+                    a, b = comp_view(fv, False), comp_view(v, True)
+                    what = 'primary' if a['primary'] != b['primary'] else 'identities' if [x[:2] for x in a['ids']] != [x[:2] for x in b['ids']] else \
+                        'identity-signatures' if a['ids'] != b['ids'] else 'subkeys' if a['subs'] != b['subs'] else 'direct'
+                    probs.append(('first-export', 'first export after import differs from the GnuPG export in: %s' % what))
+                if v['secret'] and fv['parsed']['secret_part'] != v['parsed']['secret_part']:
+                    probs.append(('secret-material', 'secret key material octets changed on re-export'))
+                r.transitions += roundtrip(first, {k: x for k, x in known.items()}, probs, 'GnuPG key', v['secret'])
+                if bytes(copy.copy(key)) != first:
+                    probs.append(('copy', 'a copy exports different octets'))
+            except Exception as e:
+                import traceback
+                probs.append(('exception', '%r %s' % (e, traceback.format_exc()[-300:])))
+            r.outcomes['gpg:' + ('ok' if not probs else 'violation')] += 1
+            kinds = set()
+            for kind, detail in probs:
+                if kind not in kinds:
+                    kinds.add(kind)
+                    r.viol('gpg', {'kind': kind, 'file': f.split('.')[1]}, dict(case, only=f), 'GnuPG-made key %s: %s' % (f, detail))
+        r.samples.append({'gpg_keys': len(G.files('key.*.gpg'))})
         return r
 
     def c_concat(self, case):
